@@ -738,7 +738,18 @@ class PuritySim:
                 client["queue"].append({"op": "read", "client": client["name"], "target": nid, "q": q_old})
             if nid not in client["nodes"]:
                 client["nodes"].append(nid)
-            return {"op": "node", "client": client["name"], "node": spec}
+            node_op = {"op": "node", "client": client["name"], "node": spec}
+            if rs.random() < 0.3:
+                # ask-then-derive-then-ask-again: a query call on the source immediately before the derivation, the same call
+                # on the derived object right after it ("objects later derived from it")
+                calls = [c for c in catalog.curated_calls(env[src], rs, self.nodes_by_type()) if c["t"] == "call"]
+                if calls:
+                    c = rs.choice(calls)
+                    client["queue"].insert(0, {"op": "read", "client": client["name"], "target": nid, "q": c})
+                    client["queue"].insert(0, node_op)
+                    self.probe("call_then_derive_then_same_call")
+                    return {"op": "read", "client": client["name"], "target": src, "q": c}
+            return node_op
         if role == "constructor" and rs.random() < 0.5:
             spec = self.gen_construct(rs)
             if spec is not None:
